@@ -270,6 +270,72 @@ def finalised_everywhere(R, rnd):
                 R.traces += 1
 
 
+def python_returns_parsed_objects(R, rnd):
+    """SPEC stream: inline Python that hands back an instance parsed EARLIER (the field of a wrapper, the argument itself):
+    the instance keeps the span of its own match, whatever the expression around the Python call consumed"""
+    import re
+    import sys
+    sys.path.insert(0, core.REPO)
+    from sourcer import Grammar
+    desc = ('ignore /\\s+/\nclass Word { text: /[a-z]+/ }\nclass Group { pass "("; inner: Word; pass ")" }\n'
+            'class Entry { word: Word; pass ":"; num: /[0-9]+/ }\n'
+            'Term = (Group |> `lambda g: g.inner`) | (`lambda e: e.word` <| Entry) | (Word |> `lambda w: w`) | ((Group |> `lambda g: g.inner`) << "!")\n'
+            'Stmt = ((Group |> `lambda g: g.inner`) << "!") | Group\nstart = [Term+, Stmt?]\n')
+    try:
+        g = Grammar(desc)
+    except Exception as e:                      # noqa
+        R.counterexample('python-returns-parsed-objects', 'generated-grammar-rejected:' + type(e).__name__, {'grammar': desc}, 'a grammar', str(e)[:200])
+        return
+    ws = lambda: rnd.choice(['', ' ', '  ', '\n', ' \n  '])
+    for i in range(120 if R.tier == 'quick' else 3000):
+        items = []
+        for _ in range(rnd.randrange(1, 5)):
+            w = rnd.choice(['ab', 'c', 'xyz', 'q'])
+            items.append(rnd.choice([w, f'({ws()}{w}{ws()})', f'{w}{ws()}:{ws()}{rnd.choice(["1", "23"])}']))
+        text = ws() + (ws() or ' ').join(items) + rnd.choice(['', ws() + '(' + ws() + 'zz' + ws() + ')' + rnd.choice(['', ws() + '!'])]) + ws()
+        try:
+            res = g.parse(text)
+        except (g.ParseError, g.PartialParseError):
+            R.count('python-returns-parsed-objects-rejected', text)
+            continue
+        except Exception as e:                  # noqa
+            R.counterexample('python-returns-parsed-objects', 'exception:' + type(e).__name__, {'grammar': desc, 'text': text}, 'a parse result', str(e)[:200])
+            continue
+        words = []
+
+        def walk(v):
+            if isinstance(v, (list, tuple)):
+                for x in v:
+                    walk(x)
+            elif hasattr(v, '_fields'):
+                if type(v).__name__ == 'Word':
+                    words.append(v)
+                for f in v._fields:
+                    walk(getattr(v, f))
+        walk(res)
+        # the span of an instance ends with the last character its match consumed, the ignorable text skipped after its
+        # last token included
+        want = []
+        for m in re.finditer(r'[a-z]+', text):
+            e = m.end()
+            while e < len(text) and text[e].isspace():
+                e += 1
+            want.append((m.start(), e - 1))
+        got = []
+        for w in words:
+            pi = w._metadata.position_info
+            try:
+                got.append((pi.start.index, pi.end.index))
+            except Exception:                   # noqa
+                got.append(repr(pi))
+        R.count('python-returns-parsed-objects', text, nontrivial=len(want) > 1)
+        if got != want:
+            R.counterexample('python-returns-parsed-objects', 'instance-handed-back-by-inline-python-has-another-span', {'grammar': desc, 'text': text},
+                             f'Word spans {want}', f'{got}')
+        else:
+            R.traces += 1
+
+
 def run(R):
     R.build()
     R.prove('Props/C10.v')
@@ -299,6 +365,7 @@ def run(R):
                                  {'grammar': r['desc'], 'text': text, 'pos': pos},
                                  'spans nested in the parent, siblings disjoint and in input order', ix)
     finalised_everywhere(R, rnd)
+    python_returns_parsed_objects(R, rnd)
     R.extra['instances_judged'] = ninst
     R.assumptions += ['lookahead, Backtrack and reads of earlier values are exempt from the ordering claim (not judged there)',
                       'spans of instances that consumed nothing are outside the property']
